@@ -12,6 +12,8 @@
   choice 0 afterwards, and branches on every alternative (all linear extensions of the heavy-task partial order when
   their number is <= cap, otherwise all schedules with <= `deviations` non-default choices — iterative context
   bounding).  Divergence while replaying a prefix is a hard error.
+* mutation monitor (as refined): additions of entries to containers of shared objects (memoisation fills) are recorded separately and
+  are not mutations; changes of existing content are.
 * mutation monitor: a structural digest of every input of a task is taken before and after the task runs; a task
   that changes an input that has another consumer (or is a requested output) makes the result order dependent and is
   reported even if this run's numbers agree.
@@ -121,6 +123,7 @@ class Run:
         self.taken = []  # choice taken at each scheduling point
         self.order = []  # heavy task names in execution order
         self.mutations = []
+        self.memo_fills = []
         self.n_tasks = 0
         self.n_heavy = 0
 
@@ -166,7 +169,13 @@ class Run:
                 for d, v in inp.items():
                     if before[d] is not None and _snapshot(v) != before[d] and (consumers[d] > 1 or d in outs):
                         what = _diff(pickle.loads(before[d]), v)
-                        if what:  # byte-level pickle differences without a structural difference (memo order) are ignored
+                        if what and all(w.endswith(": added") or ": type NoneType -> " in w for w in what):
+                            # pure memoisation: entries were ADDED to a container of a shared object, or an unset (None) attribute was initialised
+                            # lazily, and nothing that existed was changed.
+                            # Such a fill cannot change what another task computes unless the entry is wrong, and a wrong entry shows up as a
+                            # schedule-dependent outcome, which the explorer compares anyway.  Recorded, not reported as a mutation.
+                            self.memo_fills.append((str(k[0] if isinstance(k, tuple) else k)[:40], what[:2]))
+                        elif what:  # byte-level pickle differences without a structural difference (memo order) are ignored
                             self.mutations.append((str(k[0] if isinstance(k, tuple) else k)[:40], str(d[0] if isinstance(d, tuple) else d)[:30], what))
             done.add(k)
 
@@ -297,6 +306,7 @@ def explore(execute, cap=120, deviations=1, monitor=True, max_runs=None, same=No
     """
     clusters = _Clusters(same or (lambda a, b: a == b))
     results, mutations, info = {}, [], {}
+    memo = []
 
     def run(choices, expect=None):
         r = Run(choices, monitor=monitor)
@@ -307,6 +317,7 @@ def explore(execute, cap=120, deviations=1, monitor=True, max_runs=None, same=No
             raise ScheduleDivergence("real run of %r has scheduling points %r, the structural enumeration predicted %r" % (choices, r.points, expect[0]))
         results[tuple(r.taken)] = out
         mutations.extend(r.mutations)
+        memo.extend(r.memo_fills)
         info.setdefault("heavy", r.n_heavy)
         info.setdefault("tasks", r.n_tasks)
         return r
@@ -349,5 +360,5 @@ def explore(execute, cap=120, deviations=1, monitor=True, max_runs=None, same=No
         raise ScheduleDivergence("replaying the default schedule twice gave different observations")
     return dict(runs=len(results), exhaustive=exhaustive, bound=bound, level_sizes=level_sizes, skipped_level=skipped,
                 linear_extensions=total if total <= cap else ">%d" % cap,
-                outcomes=[clusters.reps[i] for i in sorted(set(results.values()))], mutations=mutations,
+                outcomes=[clusters.reps[i] for i in sorted(set(results.values()))], mutations=mutations, memo_fills=memo,
                 heavy=info.get("heavy", 0), tasks=info.get("tasks", 0), schedules=sorted(results)[:3])
